@@ -795,6 +795,30 @@ spec fn con_violated(ts: Seq<TypeNode>, a: TyID, c: Constraint) -> bool {
         Constraint::Variable => ta is Void,
     }
 }
+/// the deferred constraint a `case` arm puts on the matched value: the variant exists, and its
+/// payload is the type of the arm's binding (if it binds one)
+spec fn variant_con(b: CaseBranch, vs: Seq<TypeVariable>) -> Constraint {
+    Constraint::Variant(b.pattern.name, match b.variable { Some(v) => Some(vs[v as int].ty), None => None })
+}
+/// the names of the first n arms
+spec fn arm_name_in(bs: Seq<CaseBranch>, n: int, s: String) -> bool {
+    exists|k: int| 0 <= k < n && #[trigger] bs[k].pattern.name == s
+}
+spec fn arm_names(names: Set<String>, bs: Seq<CaseBranch>, n: int) -> bool {
+    forall|s: String| #[trigger] names.contains(s) <==> arm_name_in(bs, n, s)
+}
+/// what checking a `case` leaves behind on the matched value: it is an enum, every arm's variant is
+/// required, and without `else` the arms are required to be exactly the variants
+spec fn case_recorded(ts: Seq<TypeNode>, e: Expression, vs: Seq<TypeVariable>) -> bool {
+    match e {
+        Expression::Case { branches, fall_through, .. } => exists|x: TyID| (x.0 as int) < ts.len()
+            && #[trigger] cons_of(ts, x.0 as int).contains(Constraint::Enum)
+            && (forall|k: int| 0 <= k < branches@.len() ==> cons_of(ts, x.0 as int).contains(variant_con(#[trigger] branches@[k], vs)))
+            && (fall_through is None ==> exists|names: BTreeSet<String>| #[trigger] cons_of(ts, x.0 as int).contains(Constraint::TotalEnum(names))
+                    && arm_names(names@, branches@, branches@.len() as int)),
+        _ => true,
+    }
+}
 /// the type constructor of a literal
 spec fn lit_head(e: Expression) -> Option<int> {
     match e {
@@ -1782,6 +1806,7 @@ impl TypeChecker {
             r is Ok && lit_head(*expression) is Some ==> head(ty_of(final(self).types@, r->Ok_0.1)) == lit_head(*expression)->Some_0, //# C03 expression.a_literal_has_the_type_of_its_kind
             heads_kept(final(self).types@, final(self).types@), //# - expression.spec.seed_term_of_the_known_types_chain
             lit_clash(*expression) ==> r is Err, //# C03 expression.operator_on_literals_of_incompatible_types_is_rejected
+            r is Ok ==> case_recorded(final(self).types@, *expression, old(self).variables@), //# C05 expression.case_requires_an_enum_with_every_arm_and_exactly_the_arms_without_else
 //@   endspec
 //@   ghost entry
         hide(wf_forest); hide(ids_closed); hide(TypeChecker::vars_valid);
@@ -1846,9 +1871,16 @@ impl TypeChecker {
                         forall|k: int| 0 <= k < branches@.len() ==> cb_ok(#[trigger] branches@[k], n), //# C07 expression.loop4.aux5
                         ret is Some ==> self.valid(ret->Some_0), value is Some ==> self.valid(value->Some_0), //# C07 expression.loop4.aux6
                         forall|k: int| 0 <= k < it.index@ ==> cb_str(vs, #[trigger] branches@[k], il, ip), //# C04,C05 expression.loop4.arms_checked
+                        cons_of(self.types@, to_match.0 as int).contains(Constraint::Enum), //# C05 expression.loop4.matched_value_must_be_an_enum
+                        forall|k: int| 0 <= k < it.index@ ==> cons_of(self.types@, to_match.0 as int).contains(variant_con(#[trigger] branches@[k], vs)), //# C05 expression.loop4.every_arm_so_far_requires_its_variant
+                        arm_names(branch_names@, branches@, it.index@ as int), //# C05 expression.loop4.names_collected_are_the_arms_so_far
 //@   endloop
 //@   ghost loop-body 4
                 proof { if branch.variable is Some { lemma_var_valid(self, branch.variable->Some_0 as int); } }
+                let ghost sb = self.types@; proof { lemma_cons_refl(sb); }
+//@   endghost
+//@   ghost after-loop 4
+                let ghost sl = self.types@; proof { lemma_cons_refl(sl); }
 //@   endghost
 //@   ghost before-loop 5
                 let ghost n5 = self.types@.len();
